@@ -53,6 +53,13 @@ def gen_cases(tier, seed):
         if wt == "int" and rng.random() < 0.12:
             # integral flows given as float objects while int weights are requested
             base["flow"] = {e: float(f) for e, f in base["flow"].items()}
+        elif wt == "float" and rng.random() < 0.3:
+            # the converse: flow values given as Python ints while float weights (the documented default type) are requested
+            if cyc:
+                base = I.cyc_node_base(rng, wt="int") if node else I.cyc_edge_base(rng, wt="int", max_edges=9)
+            else:
+                base = I.dag_node_base(rng, wt="int") if node else I.dag_edge_base(rng, wt="int")
+            base["wt"] = "float"
         kw = {"flow_attr": "flow", "weight_type": wt}
         if node:
             kw["flow_attr_origin"] = "node"
@@ -122,7 +129,7 @@ def run_case(case):
             demand = {(u, v): d["flow"] for u, v, d in G.edges(data=True) if "flow" in d and (u, v) not in ign}
         else:
             demand = {v: d["flow"] for v, d in G.nodes(data=True) if "flow" in d and v not in ign}
-        bad_type = [w for w in weights if (wt == "int" and (not isinstance(w, int) or isinstance(w, bool))) or (wt == "float" and (not isinstance(w, (int, float)) or isinstance(w, bool)))]
+        bad_type = [w for w in weights if (wt == "int" and (not isinstance(w, int) or isinstance(w, bool))) or (wt == "float" and not isinstance(w, float))]
         if bad_type:
             viol.append({"sig": f"C02/weight-type/{inst['cls']}/{wt}", "msg": f"weights {weights} for weight_type={wt}; {desc}"})
         else:
